@@ -7,7 +7,9 @@ MCRagged == {"contour"}
 FeatsA == {"image", "contour"}
 FeatsB == {"deform", "mask"}
 FeatsC == {"trace", "fl1_max"}
-FeatsAll == {"image", "contour", "deform", "mask", "trace", "fl1_max"}
+\* the index feature: whatever is handed to the writer, the file enumerates 1..N
+FeatsD == {"index", "deform"}
+FeatsAll == {"image", "contour", "deform", "mask", "trace", "fl1_max", "index"}
 NoFeats == {}
 NoLogs == {}
 Logs1 == {"log"}
